@@ -3,6 +3,8 @@ package sim
 import (
 	"encoding/binary"
 	"fmt"
+	"github.com/foxboron/go-uefi/efi/signature"
+	"strings"
 )
 
 // refesl: EFI_SIGNATURE_LIST stream reader/writer written from UEFI 2.8
@@ -191,4 +193,31 @@ func refRandDB(tag uint64) []byte {
 		ls = append(ls, l)
 	}
 	return refESLEncode(ls)
+}
+
+// refStructure / libStructure: the decoded shape of a database — per list its type, how many entries it holds, and each
+// entry's owner and data — so that two databases that happen to encode to the same bytes can still be told apart (an
+// entry that swallowed its neighbours encodes exactly like the neighbours did).
+func refStructure(ls []RefList) string {
+	var b strings.Builder
+	for _, l := range ls {
+		fmt.Fprintf(&b, "[%x n=%d:", l.Type, len(l.Sigs))
+		for _, s := range l.Sigs {
+			fmt.Fprintf(&b, "(%x,%d,%x)", s.Owner, len(s.Data), h64(string(s.Data)))
+		}
+		b.WriteString("]")
+	}
+	return b.String()
+}
+
+func libStructure(db *signature.SignatureDatabase) string {
+	var b strings.Builder
+	for _, l := range *db {
+		fmt.Fprintf(&b, "[%x n=%d:", refGUIDWire(l.SignatureType), len(l.Signatures))
+		for _, s := range l.Signatures {
+			fmt.Fprintf(&b, "(%x,%d,%x)", refGUIDWire(s.Owner), len(s.Data), h64(string(s.Data)))
+		}
+		b.WriteString("]")
+	}
+	return b.String()
 }
